@@ -912,6 +912,20 @@ def strip_labels(t):
     return t
 
 
+def label_names(t):
+    """Names of all ordinary labels of a labelled tree, in source order."""
+    out = [t[1]] if t[0] == "label" else []
+    for ch in _children(t):
+        out.extend(label_names(ch))
+    return out
+
+
+def typedef_prefix(t):
+    """File-scope text that makes every label name of t a typedef name (labels
+    have their own name space: the tree below must not change)."""
+    return "".join("typedef int %s ; " % n for n in label_names(t))
+
+
 def pragma_texts(t):
     """All pragma texts of a labelled tree, in source order."""
     k = t[0]
